@@ -1,6 +1,6 @@
 """C06 — pruning is exact: db holds precisely the live nodes, ref counts are true (DESIGN §5 C06)."""
 from ..report import Report
-from .common import run_hex, replay_hex
+from .common import add_scale, run_hex, replay_hex
 
 replay = replay_hex
 
@@ -36,4 +36,5 @@ def run(tier, seed):
         run_hex(rep, "HWxSL direct", universe="HW", values=("S", "L"), prune=True, props=P, state_cap=8000)
         run_hex(rep, "HLxSL direct", universe="HL", values=("S", "L"), prune=True, props=P, state_cap=8000)
         run_hex(rep, "H4xSL nested", universe="H4", values=("S", "L"), prune=True, props=P, batch_len=1, exits=("commit", "abort"), nested=True, state_cap=8000)
+    add_scale(rep, "C06", prunes=(True,))
     return rep
